@@ -3,6 +3,10 @@ from sqlfluff.core.parser import BaseSegment
 from sqllineage.core.holders import SubQueryLineageHolder
 from sqllineage.core.models import Column
 from sqllineage.core.parser.sqlfluff.extractors.base import BaseExtractor
+from sqllineage.core.parser.sqlfluff.models import (
+    SOURCE_COLUMN_SEGMENT_TYPE,
+    SqlFluffColumn,
+)
 from sqllineage.core.parser.sqlfluff.utils import (
     extract_column_qualifier,
     list_child_segments,
@@ -47,13 +51,19 @@ class UpdateExtractor(BaseExtractor):
 
             if segment.type == "set_clause_list":
                 for set_clause in segment.get_children("set_clause"):
-                    column_references = set_clause.get_children("column_reference")
-                    if len(column_references) == 2:
-                        tgt_cqt = extract_column_qualifier(column_references[0])
-                        src_cqt = extract_column_qualifier(column_references[1])
-                        if tgt_cqt is not None and src_cqt is not None:
+                    sub_segments = list_child_segments(set_clause)
+                    if sub_segments and sub_segments[0].type == "column_reference":
+                        # SET col = <expression>: every column the right hand side refers to feeds col
+                        tgt_cqt = extract_column_qualifier(sub_segments[0])
+                        src_cqts = []
+                        for sub_segment in sub_segments[1:]:
+                            if sub_segment.type in SOURCE_COLUMN_SEGMENT_TYPE:
+                                src_cqts += SqlFluffColumn._extract_source_columns(
+                                    sub_segment
+                                )
+                        if tgt_cqt is not None and src_cqts:
                             columns.append(
-                                Column(tgt_cqt.column, source_columns=[src_cqt])
+                                Column(tgt_cqt.column, source_columns=src_cqts)
                             )
 
             if segment.type == "from_clause":
